@@ -3,6 +3,8 @@ package props
 import (
 	"encoding/json"
 	"fmt"
+	"os"
+	"path/filepath"
 	"sort"
 	"strings"
 
@@ -36,11 +38,11 @@ func (p *c08) Rule() string {
 }
 
 func (p *c08) Directed() []string {
-	return []string{"two-languages-different-refs", "two-webhook-headers", "many-issues-one-node", "case-variant-json-keys", "clone-with-ui-and-localization", "custom-number-format-then-default", "many-results-fields-groups"}
+	return []string{"two-languages-different-refs", "two-webhook-headers", "many-issues-one-node", "case-variant-json-keys", "clone-with-ui-and-localization", "custom-number-format-then-default", "many-results-fields-groups", "number-format-comma-space", "number-format-comma-dot", "number-format-dot-space", "number-format-dot-comma"}
 }
 
 func (p *c08) Floors(tier string) []string {
-	return []string{"clause.inprocess_repeat", "outputs.sprints", "outputs.inspect", "outputs.migrate", "outputs.clone", "outputs.query", "outputs.templates", "sites.translation_languages", "sites.webhook_headers", "sites.case_variant_keys", "clause.canaries"}
+	return []string{"clause.inprocess_repeat", "outputs.sprints", "outputs.inspect", "outputs.migrate", "outputs.migrate_legacy", "outputs.clone", "outputs.query", "outputs.templates", "sites.translation_languages", "sites.webhook_headers", "sites.case_variant_keys", "clause.canaries"}
 }
 
 func (p *c08) directed(name string) *gen.Scenario {
@@ -94,6 +96,19 @@ func (p *c08) directed(name string) *gen.Scenario {
 		t := d.Manual("A", nil)
 		t["environment"].(gen.M)["number_format"] = gen.M{"decimal_symbol": ",", "digit_grouping_symbol": "."}
 		return &gen.Scenario{Assets: d.BaseAssets(d.Flow("A", "messaging", d.Node("a1", []any{d.SendMsg("m", "@(format_number(1234.5)) @(1234.5)")}, nil, d.Exit("a1x", "a2")), d.WaitNode("a2", "a1", nil))), Trigger: t, Resumes: []gen.M{d.MsgResume(0, "1.234,5")}}
+	case "number-format-comma-space", "number-format-comma-dot", "number-format-dot-space", "number-format-dot-comma":
+		// the same flow and input under environments that share one symbol and differ in the other: anything cached
+		// per process under a key that forgets one of the two symbols shows up as order / process dependence
+		nf := map[string]gen.M{"number-format-comma-space": {"decimal_symbol": ",", "digit_grouping_symbol": " "}, "number-format-comma-dot": {"decimal_symbol": ",", "digit_grouping_symbol": "."},
+			"number-format-dot-space": {"decimal_symbol": ".", "digit_grouping_symbol": " "}, "number-format-dot-comma": {"decimal_symbol": ".", "digit_grouping_symbol": ","}}[name]
+		t := d.Manual("A", nil)
+		t["environment"].(gen.M)["number_format"] = nf
+		num := d.Cat("Number", "r1num")
+		oth := d.Cat("Other", "r1oth")
+		return &gen.Scenario{Assets: d.BaseAssets(d.Flow("A", "messaging",
+			d.Node("r1", nil, d.Switch("@input.text", []gen.M{num, oth}, oth, []gen.M{{"type": "has_number_gt", "arguments": []string{"100"}, "category_uuid": num["uuid"]}, {"type": "has_number", "category_uuid": num["uuid"]}}, gen.M{"type": "msg"}, "Amount"), d.Exit("r1num", "a2"), d.Exit("r1oth", "a2")),
+			d.Node("a2", []any{d.SendMsg("m", "@results.amount.value @(format_number(1234.5)) @(number(results.amount.value) + 1) @(has_number(input.text).match) @(text(1234.5))")}, nil, d.Exit("a2x", "r1")))),
+			Trigger: t, Resumes: []gen.M{d.MsgResume(0, "1.234,50"), d.MsgResume(1, "1 234,50"), d.MsgResume(2, "1,234.50"), d.MsgResume(3, "1.234.567")}}
 	case "many-results-fields-groups":
 		var acts []any
 		for i, n := range []string{"Zeta", "alpha", "Beta", "gamma", "Delta", "eps", "Eta"} {
@@ -146,6 +161,10 @@ func mapSites(scen *gen.Scenario) map[string]int {
 
 // outputs runs the whole case once and returns its labelled outputs.
 func (p *c08) outputs(scen *gen.Scenario, seed int64, res *fw.Result, count bool) (out []string, err error) {
+	return p.outputsN(scen, seed, 0, res, count)
+}
+
+func (p *c08) outputsN(scen *gen.Scenario, seed int64, rot int, res *fw.Result, count bool) (out []string, err error) {
 	rn, err := drive.Load(scen, seed)
 	if err != nil {
 		return nil, err
@@ -227,7 +246,7 @@ func (p *c08) outputs(scen *gen.Scenario, seed int64, res *fw.Result, count bool
 			stripForOldSpec13(old)
 			ob, _ := json.Marshal(old)
 			st := rn.Src.Snapshot()
-			mig, err := migrations.MigrateToLatest(ob, nil)
+			mig, err := migrations.MigrateToLatest(ob, migrations.DefaultConfig)
 			rn.Src.Restore(st)
 			if err != nil {
 				add(fmt.Sprintf("migrate[%d]", i), "error: "+err.Error())
@@ -248,6 +267,24 @@ func (p *c08) outputs(scen *gen.Scenario, seed int64, res *fw.Result, count bool
 				add(fmt.Sprintf("clone[%d]", i), "error: "+err.Error())
 			} else {
 				add(fmt.Sprintf("clone[%d]", i), cl)
+			}
+		}()
+	}
+	// legacy definitions (the repository's own legacy flows, and variants whose texts lack a base-language translation)
+	for i, ld := range legacyDefs(int64(rot)) {
+		func() {
+			defer func() {
+				if r := recover(); r != nil {
+					add(fmt.Sprintf("migrate_legacy[%d]", i), "panic: "+fmt.Sprint(r))
+				}
+			}()
+			st := rn.Src.Snapshot()
+			mig, err := migrations.MigrateToLatest(ld, migrations.DefaultConfig)
+			rn.Src.Restore(st)
+			if err != nil {
+				add(fmt.Sprintf("migrate_legacy[%d]", i), "error: "+err.Error())
+			} else {
+				add(fmt.Sprintf("migrate_legacy[%d]", i), mig)
 			}
 		}()
 	}
@@ -279,6 +316,97 @@ func (p *c08) outputs(scen *gen.Scenario, seed int64, res *fw.Result, count bool
 		}
 	}
 	return out, nil
+}
+
+var legacyCache [][]byte
+
+// legacyDefs returns a seed-dependent handful of legacy definitions: flows from the repository's legacy test data, each
+// also as a variant in which every multi-language text has lost its base-language (and "base") entry — as happens when a
+// flow's base language was switched after it was translated.
+func legacyDefs(seed int64) [][]byte {
+	if legacyCache == nil {
+		root := os.Getenv("VERIF_REPO")
+		if root == "" {
+			root = "/repo"
+		}
+		b, err := os.ReadFile(filepath.Join(root, "flows/definition/legacy/testdata/flows.json"))
+		if err != nil {
+			legacyCache = [][]byte{}
+			return nil
+		}
+		var items []struct {
+			Legacy json.RawMessage `json:"legacy"`
+		}
+		json.Unmarshal(b, &items)
+		for _, it := range items {
+			if len(it.Legacy) == 0 {
+				continue
+			}
+			legacyCache = append(legacyCache, it.Legacy)
+			var m any
+			if json.Unmarshal(it.Legacy, &m) != nil {
+				continue
+			}
+			base := ""
+			if mm, ok := m.(map[string]any); ok {
+				base, _ = mm["base_language"].(string)
+			}
+			if base == "" {
+				continue
+			}
+			dropBase(m, base)
+			vb, _ := json.Marshal(m)
+			legacyCache = append(legacyCache, vb)
+		}
+	}
+	if len(legacyCache) == 0 {
+		return nil
+	}
+	// three per case, rotating with the seed/case so that all are covered over a run
+	n := len(legacyCache)
+	k := int(uint64(seed) % uint64(n))
+	return [][]byte{legacyCache[k%n], legacyCache[(k+1)%n], legacyCache[(k+n/2)%n]}
+}
+
+// dropBase rewrites every translation map (all keys are language codes / "base", all values strings) so that it has at
+// least two languages and none of them is the flow's base language.
+func dropBase(v any, base string) {
+	switch t := v.(type) {
+	case map[string]any:
+		isTr := len(t) > 0
+		for k, x := range t {
+			if _, ok := x.(string); !ok || !(len(k) == 3 || k == "base") {
+				isTr = false
+			}
+		}
+		if isTr {
+			var sample string
+			for _, x := range t {
+				sample, _ = x.(string)
+			}
+			if b, ok := t[base].(string); ok {
+				sample = b
+			}
+			delete(t, base)
+			delete(t, "base")
+			for _, l := range []string{"fra", "spa", "kin"} {
+				if len(t) >= 2 {
+					break
+				}
+				if _, ok := t[l]; !ok && l != base {
+					t[l] = sample + " [" + l + "]"
+				}
+			}
+			return
+		}
+		for _, x := range t {
+			dropBase(x, base)
+		}
+	case []any:
+		for _, x := range t {
+			dropBase(x, base)
+		}
+	}
 }
 
 var c08Templates = []string{
@@ -360,7 +488,7 @@ func (p *c08) Run(c fw.Case) fw.Result {
 	}
 	res.Fingerprint = scen.Fingerprint()
 	before := globalsSnapshot()
-	first, err := p.outputs(scen, c.Seed, &res, true)
+	first, err := p.outputsN(scen, c.Seed, c.Index, &res, true)
 	if err != nil {
 		res.Discarded = "unloadable: " + errClass(err.Error())
 		return res
@@ -375,7 +503,7 @@ func (p *c08) Run(c fw.Case) fw.Result {
 	// in-process repetition
 	for rep := 1; rep < 8; rep++ {
 		res.Count("clause.inprocess_repeat", 1)
-		again, err := p.outputs(scen, c.Seed, &res, false)
+		again, err := p.outputsN(scen, c.Seed, c.Index, &res, false)
 		if err != nil {
 			break
 		}
